@@ -35,6 +35,12 @@ Inductive case :=
      in processing order; verdict 0 verified / 1 work error of [ekind] / 2 ordinary failure *)
 | CaseSig (mode K Rl St : N) (sets : list (list (nat * option nat)))
           (verdict ekind ops exh first bound : N)
+  (* loopback lab, one client query, step by step: the events an observer at the upstream servers and at
+     the head of the sub-pipeline recorded in order — EvX: a datagram/TCP query arrived upstream, with the
+     tree's ledger counters read at that moment; EvS: a sub-pipeline run started, with the values its context
+     carries (queryerDepthKey, best-effort mark, cnameChaseDepthKey, contextKeyDnameDepth, contextKeyNSL) and the
+     counters; EvE: it returned.  [treechk]: the sub-runs of this topology are sequential (no detached IPv6 walk) *)
+| CaseTrace (mode max_out max_int : N) (v6 treechk : bool) (evs : list event)
   (* same topology resolved with the firewall off and in shadow mode: canonical replies *)
 | CaseLabEq (fam p1 p2 : N) (qmin : bool) (reply_off reply_shadow : list N) (packets_off packets_shadow : N).
 
@@ -107,6 +113,15 @@ Definition check_case (c : case) : bool :=
       (negb ((mode =? mode_enforce) && negb (first =? 0)) ||
        ((rcode =? rcode_servfail) &&
         (negb edns || (ede =? 1 + (if go_RecursionWorkKind_isDNSSEC (first - 1) then 9 else ede_other)))))
+  | CaseTrace mode max_out max_int v6 treechk evs =>
+      (* the real event sequence passes the two checkers every trace of the skeleton passes
+         (budgets_hold_at_every_step, subquery_call_tree) *)
+      ((mode =? mode_off) || steps_ok (mode =? mode_enforce) max_out max_int 0 0 0 0 evs) &&
+      (negb treechk ||
+       match tree_run v6 (mk_sl 0 cx0) [] evs with
+       | Some (mk_sl O (mk_cx false O O false), []) => true
+       | _ => false
+       end)
   | CaseLabEq fam p1 p2 qmin reply_off reply_shadow packets_off packets_shadow =>
       list_eqb N.eqb reply_off reply_shadow
   | CaseCrowd k tiny over reply_after reply_fresh =>
@@ -192,6 +207,17 @@ Definition spec_case (c : case) : bool :=
         ((first =? 0) ||
          ((rcode =? 2) && (negb edns || negb (ede =? 0)) &&
           (negb resolvable || negb (ede2 =? 1 + 13))))))
+  | CaseTrace mode max_out max_int v6 treechk evs =>
+      (* enforce: no more upstream arrivals than the outbound budget, no more sub-pipeline runs than the
+         internal budget; in every mode no sub-run nests deeper than 32, chases deeper than 10 or follows
+         DNAMEs deeper than 10 (the numbers of the property text) *)
+      let xs := N.of_nat (length (filter (fun e => match e with EvX _ _ => true | _ => false end) evs)) in
+      let ss := N.of_nat (length (filter (fun e => match e with EvS _ _ _ => true | _ => false end) evs)) in
+      (negb (mode =? 2) || ((xs <=? max_out) && (ss <=? max_int))) &&
+      forallb (fun e => match e with
+                        | EvS (mk_sl n (mk_cx _ ch dn _)) _ _ => (n <=? 32)%nat && (ch <=? 10)%nat && (dn <=? 10)%nat
+                        | _ => true
+                        end) evs
   | CaseLabEq fam p1 p2 qmin reply_off reply_shadow packets_off packets_shadow =>
       list_eqb N.eqb reply_off reply_shadow
   | CaseCrowd k tiny over reply_after reply_fresh => list_eqb N.eqb reply_after reply_fresh
